@@ -471,19 +471,26 @@ def cause_of(cat, sig, printed="", text=""):
             # unnamed parameter, ...)
             return "type-name-not-recognised,via=" + vias.pop()
         return None
-    vias = set(LOOKUP_VIA.findall(sig))
-    if len(vias) == 1 and re.search(r"fn\([^;]*;[^)]*/(unq-using|unq-base|unq-injected|relqual)", sig):
-        return "function-declarator-with-unrecognised-parameter-type-taken-as-initialiser,via=" + vias.pop()
     if re.search(r"^method:ret=(ptr|ref|rref|memptr)\((array|fn)\(.*cvq=const", sig) and "volatile" not in sig:
         return "const-method-returning-pointer-to-array-or-function-misplaces-const"
     if "volatile" in sig:
         return "volatile-qualifier-dropped"
     if re.search(r"memptr\((?!fn\()", sig):
         return "pointer-to-data-member-printed-as-pointer"
+    vias = set(LOOKUP_VIA.findall(sig))
+    if len(vias) == 1 and re.search(r"fn\([^;]*;[^)]*/(unq-using|unq-base|unq-injected|relqual)", sig):
+        return "function-declarator-with-unrecognised-parameter-type-taken-as-initialiser,via=" + vias.pop()
+    if "unknown" in printed and "tmpl" in sig:
+        # (also abstract declarators such as `int (*)[4]` as template arguments)
+        return "template-argument-printed-as-unknown"
+    if re.search(r"fn\((ptr|ref|rref|memptr)\((array|fn)\(.*\) const", sig):
+        # `int (*(G::*p)() const)[2]` is printed `int (*(G::*p)(void))[2] const`
+        return "const-member-function-pointer-returning-pointer-to-array-or-function-misplaces-const"
+    if re.search(r"const (ptr|memptr)\(array\(", sig):
+        # `int (*const p)[4]` is printed `int (*p)[4] const`: the qualifier of the pointer lands after the bound
+        return "cv-qualified-pointer-to-array-misprinted"
     if re.search(r"(ptr|ref|rref)\(array\(", sig):
         return "pointer-or-reference-to-array-loses-parentheses"
-    if "unknown" in printed and "tmpl" in sig:
-        return "template-argument-printed-as-unknown"
     if "tmpl-member-" in sig:
         return "member-of-template-instantiation-printed-without-arguments"
     if re.search(r"(const|volatile) ptr\((ptr\()*fn\(", sig):
